@@ -77,7 +77,11 @@ ELEV_SUB = [(p, b, i % 2, (i // 2) % 2) for i, (p, b) in enumerate((p, b) for p 
 # equal-emptyss: as "equal", but the partner's first side set (which then shares its name with a populated set of the
 # first mesh) is EMPTY, as Surface.create_edges returns when nothing matches (added after a seeded change that let an
 # empty second set overwrite the first mesh's members went undetected)
-MODES = ("disjoint", "equal", "absent", "equal-emptyss")
+# asis: the partner is handed over exactly as its producer returned it (a mesh read from an Exodus file carries its sets
+# as plain numpy arrays, the generators as jax arrays), only translated with Mesh.mesh_with_coords, and the same two
+# objects are merged twice (added after a seeded change that offset the second mesh's numpy sets IN PLACE went
+# undetected: the first merge is right, the input mesh and every later merge that uses it are not)
+MODES = ("disjoint", "equal", "absent", "equal-emptyss", "asis")
 MAXD = 3
 CHUNK = 21
 CONTAINERS = {
@@ -588,7 +592,20 @@ def run_group(g, tier, seed, rec):
             if mode == "equal-emptyss" and ss:
                 ss[sorted(ss)[0]] = []
         coords2 = onp.asarray(ppm["coords"], dtype=float) + onp.array([4.0 * d, 0.25 * d])
-        m2 = lib_mesh(coords2, ppm["vtris"], blocks, ns, ss)
+        if mode == "asis":
+            if label.startswith("x:"):
+                fresh = do_read(label, "B/" + label, check=False)
+                fresh = None if fresh is None else fresh["mesh"]
+            else:
+                fresh = build_constructed(label)["mesh"]
+            if fresh is None:
+                return None
+            m2 = Mesh.mesh_with_coords(fresh, jnp.array(coords2))
+            rec.branch("merge:asis:sets-are-" + ("numpy" if any(type(v).__module__ == "numpy" for dd in (m2.blocks, m2.nodeSets, m2.sideSets)
+                                                                if dd for v in dd.values()) else "jax"))
+        else:
+            m2 = lib_mesh(coords2, ppm["vtris"], blocks, ns, ss)
+        pm2_before, _bad = plain(m2)
         rec.branch("merge:mode=" + mode)
         for kind in ("nodeSets", "sideSets"):
             a, b = getattr(m1, kind), getattr(m2, kind)
@@ -597,6 +614,7 @@ def run_group(g, tier, seed, rec):
         for kind in ("blocks", "nodeSets", "sideSets"):
             if set(names_of(getattr(m1, kind))) & set(names_of(getattr(m2, kind))):
                 rec.branch("merge:name-collision:" + kind)
+        pm1_before, _bad = plain(m1)
         out, _disp = Mesh.combine_mesh((m1, jnp.zeros_like(m1.coords)), (m2, jnp.ones_like(m2.coords)))
         new = dict(st, mesh=out, p=1, bubble=0, rk="combine_mesh|" + mode, nmerge=d)
         if rec.want(cid):
@@ -604,12 +622,30 @@ def run_group(g, tier, seed, rec):
             pm2, bad2 = plain(m2)
             pmo, bado = plain(out)
             assert bad1 is None and bad2 is None, (bad1, bad2)
+            names = dict(first=st["hist"], partner=label, mode=mode,
+                         first_names={k: names_of(getattr(m1, k)) for k in ("blocks", "nodeSets", "sideSets")},
+                         partner_names={k: names_of(getattr(m2, k)) for k in ("blocks", "nodeSets", "sideSets")})
+            # merging must not turn an existing (input) mesh into a different one
+            for which, before, after in (("first", pm1_before, pm1), ("second", pm2_before, pm2)):
+                for kind in ("blocks", "nodeSets", "sideSets"):
+                    if before[kind] != after[kind]:
+                        rec.violation("combine_mesh|input-mesh-modified|%s" % kind, cid,
+                                      dict(names, which=which, before=before[kind], after=after[kind]))
             if bado is None:
-                for kind, sig, cls, detail in R.loss_problems([pm1, pm2], pmo):
+                for kind, sig, cls, detail in R.loss_problems([pm1_before, pm2_before], pmo):
                     key = "combine_mesh|%s|%s|%s" % (cls, kind, sig) if cls != "n/a" else "combine_mesh|%s|%s" % (kind, sig)
-                    rec.violation(key, cid, dict(detail, first=st["hist"], partner=label, mode=mode,
-                                                 first_names={k: names_of(getattr(m1, k)) for k in ("blocks", "nodeSets", "sideSets")},
-                                                 partner_names={k: names_of(getattr(m2, k)) for k in ("blocks", "nodeSets", "sideSets")}))
+                    rec.violation(key, cid, dict(detail, **names))
+            if mode == "asis":
+                # the same two mesh objects merged a second time must give the same lossless result
+                rec.transition()
+                out2, _d2 = Mesh.combine_mesh((m1, jnp.zeros_like(m1.coords)), (m2, jnp.ones_like(m2.coords)))
+                pmo2, bado2 = plain(out2)
+                if bado2 is not None:
+                    rec.violation("combine_mesh|second-use-of-the-same-inputs|%s" % bado2[0], cid, dict(bado2[1], **names))
+                else:
+                    for kind, sig, cls, detail in R.loss_problems([pm1_before, pm2_before], pmo2):
+                        rec.violation("combine_mesh|second-use-of-the-same-inputs|%s|%s" % (kind, sig), cid,
+                                      dict(detail, **names))
         return new
 
     def do_nsfromss(st):
